@@ -278,11 +278,15 @@ def shape_vols(a, unit, present, numkind="float"):
             return np.float64(f)
         if numkind == "npint" and float(f).is_integer() and abs(f) < 2**53:
             return np.int64(f)
+        if numkind == "npuint" and float(f).is_integer() and 0 <= f < 2**16:
+            return np.uint16(f)  # an unsigned table column
         return f
 
     def arr(v):
         # integer volumes handed over as an integer array (a table read with dtype=int)
         flat = np.array(v, dtype=float)
+        if numkind == "npuint" and flat.size and np.all(np.isfinite(flat)) and np.all(flat == np.floor(flat)) and np.all(flat >= 0) and np.all(flat < 2**16):
+            return np.array(v, dtype=np.uint16)
         if numkind in ("int", "npint") and flat.size and np.all(np.isfinite(flat)) and np.all(flat == np.floor(flat)) and np.all(np.abs(flat) < 2**53):
             return np.array(v, dtype=np.int64)
         return flat
@@ -402,6 +406,9 @@ class Twin:
             elif spec.get("none_keys") and k > 0:
                 cn[wid(r, c)] = None  # "no name given" spelled as an explicit None
         kw = {"component_names": cn} if cn else {}
+        if spec.get("init_dtype"):
+            # the caller's table has a narrower floating point type (the given values are exact in it)
+            arr = arr.astype(getattr(np, spec["init_dtype"]))
         return rt.Labware(spec["name"], R, C, min_volume=minv, max_volume=maxv, initial_volumes=arr, **kw)
 
     @staticmethod
